@@ -649,7 +649,7 @@ struct Config
                 }
                 if (t[a].size() == 2 && t[a][0] == 'e')
                 {
-                    const bool is_target = ((op == "elem" || op == "elemref" || op == "elemmv") && a == 1) || ((op == "elemcopy" || op == "elemmove") && a == 2);
+                    const bool is_target = ((op == "elem" || op == "elemref" || op == "elemmv") && a == 1) || ((op == "elemcopy" || op == "elemmove" || op == "elemcopya" || op == "elemmovea") && a == 2);
                     if (!is_target && !elems[vidx(t[a])]) missing = true;
                 }
             }
@@ -1089,6 +1089,27 @@ struct Config
             else
                 elems[b] = std::make_unique<Element>(std::move(*elems[a]));
             eoracle[b] = eoracle[a];
+            eoracle_valid[b] = eoracle_valid[a];
+            dump_elem(a);
+            dump_elem(b);
+        }
+        else if (op == "elemcopya" || op == "elemmovea")
+        {  // elemcopya eS eD alloc : eD constructed from eS with the allocator-extended copy / move constructor
+            int a = vidx(t[1]), b = vidx(t[2]);
+            typename Element::allocator_type alloc{AllocT(std::atoi(t[3].c_str()))};
+            elems[b].reset();
+            if (op == "elemcopya")
+            {
+                elems[b] = std::make_unique<Element>(std::as_const(*elems[a]), alloc);
+                eoracle[b] = eoracle[a];
+            }
+            else
+            {
+                const bool steals = AllocT::is_always_equal::value || alloc == elems[a]->get_allocator();
+                elems[b] = std::make_unique<Element>(std::move(*elems[a]), alloc);
+                eoracle[b] = eoracle[a];
+                if (!steals) moved_ctor<0>(eoracle[a]);
+            }
             eoracle_valid[b] = eoracle_valid[a];
             dump_elem(a);
             dump_elem(b);
